@@ -20,6 +20,9 @@ import (
 type UpdCase struct {
 	P       []sc.ProcSpec   `json:"p"`
 	Updates [][]sc.ProcSpec `json:"updates"`
+	// GVs: value of the project-level variable GV in P (GVs[0]) and after each update; commands
+	// may refer to it as {{.GV}}, so a configuration can change although no process entry does.
+	GVs []string `json:"gvs,omitempty"`
 	Twice   bool            `json:"twice"` // apply the last configuration a second time
 	// Anchored: number of updates in which the generator put one process back unchanged because
 	// the update would otherwise have touched every process (known finding C20-restart-last-process:
@@ -69,6 +72,17 @@ func expectedArgs(p sc.ProcSpec) (string, []string) {
 	return "bash", []string{"-c", cmd}
 }
 
+// rendered: the specs as the loader renders them for the given value of GV.
+func rendered(l []sc.ProcSpec, gv string) []sc.ProcSpec {
+	out := append([]sc.ProcSpec(nil), l...)
+	for i := range out {
+		out[i].Command = strings.ReplaceAll(out[i].Command, "{{.GV}}", gv)
+	}
+	return out
+}
+
+func topOf(gv string) string { return "vars:\n  GV: " + gv + "\n" }
+
 func checkUpd(c UpdCase) pbt.Verdict {
 	var v pbt.Verdict
 	fail := func(format string, a ...any) pbt.Verdict {
@@ -76,6 +90,15 @@ func checkUpd(c UpdCase) pbt.Verdict {
 		return v
 	}
 	s := &sc.Scenario{Procs: c.P, FinishRounds: 3}
+	gvAt := func(i int) string {
+		if i < len(c.GVs) {
+			return c.GVs[i]
+		}
+		return ""
+	}
+	if len(c.GVs) > 0 {
+		s.Top = topOf(gvAt(0))
+	}
 	e, err := sc.Begin(s)
 	if errors.Is(err, sc.ErrLeftover) {
 		v.Skip = true
@@ -93,21 +116,34 @@ func checkUpd(c UpdCase) pbt.Verdict {
 	for i := 0; i < c.Anchored; i++ {
 		v.Excluded = append(v.Excluded, "C20-restart-last-process")
 	}
-	cur := c.P
+	cur := rendered(c.P, gvAt(0))
 	updates := c.Updates
+	gvs := append([]string(nil), c.GVs...)
 	if c.Twice && len(updates) > 0 {
 		updates = append(append([][]sc.ProcSpec(nil), updates...), updates[len(updates)-1])
+		if len(gvs) > 0 {
+			gvs = append(gvs, gvs[len(gvs)-1])
+		}
 	}
-	for ui, next := range updates {
+	for ui, raw := range updates {
 		idem := c.Twice && ui == len(updates)-1
+		top := ""
+		next := raw
+		if len(gvs) > 0 {
+			top = topOf(gvs[ui+1])
+			next = rendered(raw, gvs[ui+1])
+			if gvs[ui+1] != gvs[ui] {
+				v.Labels = append(v.Labels, "global-var-changed")
+			}
+		}
 		oldM, newM := byName(cur), byName(next)
 		liveBefore := map[string]*world.FakeCmd{}
 		for _, cmd := range e.W.LiveCmds("") {
 			liveBefore[cmd.Replica] = cmd
 		}
 		seq0 := e.W.NumEvents()
-		if !e.Do(sc.Step{Op: sc.OpUpdate, Procs: next}) {
-			return fail("update %d: P' was rejected by the loader\n%s", ui, sc.YAML(next, false, 0))
+		if !e.Do(sc.Step{Op: sc.OpUpdate, Procs: raw, Top: top}) {
+			return fail("update %d: P' was rejected by the loader\n%s", ui, sc.YAML(raw, false, 0))
 		}
 		if e.H.Busy != "" {
 			v.Skip = true
@@ -346,7 +382,7 @@ func genSpec(t *rapid.T, name string, earlier []string) sc.ProcSpec {
 	if pbt.Pct(t, 35) {
 		p.Entrypoint = []string{pbt.Pick(t, []string{"python", "python3", "node"}), "-m", pbt.Pick(t, []string{"srv", "job"})}
 	} else {
-		p.Command = pbt.Pick(t, []string{"serve --port 1", "serve --port 2", "work"})
+		p.Command = pbt.Pick(t, []string{"serve --port 1", "serve --port 2", "work", "serve --tier {{.GV}}"})
 	}
 	if pbt.Pct(t, 50) {
 		p.Env = []string{"MODE=" + pbt.Pick(t, []string{"dev", "prod"})}
@@ -550,6 +586,16 @@ func genUpd(t *rapid.T) UpdCase {
 		}
 		c.Updates = append(c.Updates, np)
 		cur = np
+	}
+	// the project-level variable: mostly constant, sometimes changed by an update (also by one
+	// that changes nothing else)
+	gv := pbt.Pick(t, []string{"a", "b"})
+	c.GVs = []string{gv}
+	for range c.Updates {
+		if pbt.Pct(t, 30) {
+			gv = map[string]string{"a": "b", "b": "a"}[gv]
+		}
+		c.GVs = append(c.GVs, gv)
 	}
 	c.Twice = pbt.Pct(t, 35)
 	return c
